@@ -287,6 +287,13 @@ func c20Protect(k *core.Case, m *abs.Msg, s ref.Suite) {
 		k.Violate("mismatch", "protected-output-not-accepted", fmt.Sprint(derr, dp), w)
 		return
 	}
+	// the protected datagram decoded WITHOUT keys (a proxy, a logger, a receiver that has not found the SA yet): the
+	// Encrypted payload it holds owns its data too
+	c20Decoded(k, keep, nil, "protected-but-not-unprotected", func(b []byte) (*message.IKEMessage, error) {
+		lm := new(message.IKEMessage)
+		err := lm.Decode(b)
+		return lm, err
+	})
 	// unprotected value owns its data
 	c20Decoded(k, keep, nil, "unprotected", func(b []byte) (*message.IKEMessage, error) {
 		k2, _ := libsa.NewKey(raw)
@@ -469,7 +476,7 @@ func c20(c *core.Ctx) {
 		c.Require("poisoned_buffer_cases")
 	}
 	freshFamily(c, "C20", "fresh-process", c.N(2, 40))
-	c.Require("fresh_process_cases_ok", "returned_datagram_overwritten_then_reencoded", "encode_pure", "protect_pure", "amended_decoded_encoded_x41", "decoded_and_scribbled_own-encoding", "decoded_and_scribbled_unprotected", "decoded_and_scribbled_mutated")
+	c.Require("fresh_process_cases_ok", "returned_datagram_overwritten_then_reencoded", "encode_pure", "protect_pure", "amended_decoded_encoded_x41", "decoded_and_scribbled_own-encoding", "decoded_and_scribbled_unprotected", "decoded_and_scribbled_protected-but-not-unprotected", "decoded_and_scribbled_mutated")
 }
 
 var _ = security.GenerateRandomUint8
